@@ -364,16 +364,37 @@ def check_near_history(case):
         if name == "newcomb" and not (-2.0 <= c0 <= 1.0 and -2.0 <= c1 <= 1.0):
             continue
         try:
-            fn(ep(7.7), ep(-3.3), Angle(10.0), Angle(10.0))        # far away
-            ref = fn(ep(c0), ep(c1), Angle(lon), Angle(lat))
-            ref = (ref[0]._deg, ref[1]._deg)
+            def far():
+                fn(ep(7.7), ep(-3.3), Angle(10.0), Angle(10.0))        # far away: forgets anything remembered
+
+            def exact():
+                r = fn(ep(c0), ep(c1), Angle(lon), Angle(lat))
+                return (r[0]._deg, r[1]._deg)
+
+            def shifted(d0, d1):
+                r = fn(Epoch(ep(c0).jde() + d0), Epoch(ep(c1).jde() + d1), Angle(lon), Angle(lat))
+                return (r[0]._deg, r[1]._deg)
+            far()
+            ref = exact()
             for d0 in NEAR:
                 for d1 in NEAR:
                     if d0 == 0.0 and d1 == 0.0:
                         continue
-                    fn(Epoch(ep(c0).jde() + d0), Epoch(ep(c1).jde() + d1), Angle(lon), Angle(lat))
-                    got = fn(ep(c0), ep(c1), Angle(lon), Angle(lat))
-                    got = (got[0]._deg, got[1]._deg)
+                    far()
+                    ref_s = shifted(d0, d1)
+                    # exact call first, then the nearby one ...
+                    far()
+                    exact()
+                    got_s = shifted(d0, d1)
+                    # ... and the nearby one first, then the exact call
+                    far()
+                    shifted(d0, d1)
+                    got = exact()
+                    if got_s != ref_s:
+                        out.append(("near_history", "precession_%s with epochs (%r, %r) shifted by (%r, %r) d gives %r "
+                                    "right after the call with the unshifted epochs, %r otherwise"
+                                    % (name, c0, c1, d0, d1, got_s, ref_s),
+                                    S.sep_ll(got_s[0], got_s[1], ref_s[0], ref_s[1])))
                     if got != ref:
                         out.append(("near_history", "precession_%s(%r->%r) of (%r,%r) gives %r right after a call with "
                                     "epochs shifted by (%r, %r) d, %r otherwise" % (name, c0, c1, lon, lat, got, d0, d1, ref),
